@@ -230,6 +230,64 @@ def mk():
                              PRELUDE + CR + body, "Manager.mk_fun")
             except Exception as ex:     # noqa
                 rac.fail(f"containers {name} {regen}", f"C13 {name}: {type(ex).__name__}: {ex}", PRELUDE + CR + body, "Manager.gen_fun")
+    # ---- containers registered through Manager.refattr (attribute access on the reference = item access on the container), wave 9 (C13-18)
+    rac.section("refattr-containers", "containers registered with Manager.refattr -- the default AttrDict, a plain dict, an OrderedDict, a dict subclass, "
+                "a module-like globals() dictionary -- with definitions written attribute-style and item-style, a nested list member, two setters "
+                "(one argument, two arguments): setter vs assignment through the manager, items compared (and no instance attribute appears on the container)",
+                "5 container kinds x 2 definition styles x 2 setters x 2 value sets")
+    RA = '''
+import collections, xdeps
+from xdeps.utils import AttrDict
+class MyDict(dict):
+    pass
+KINDS = {"AttrDict": AttrDict, "dict": dict, "OrderedDict": collections.OrderedDict, "dict subclass": MyDict, "globals-like": lambda: dict(__name__="fake")}
+def build(kind, style):
+    m = xdeps.Manager()
+    data = KINDS[kind]()
+    data["a"] = 1.0; data["b"] = 2.0; data["lst"] = [1.0, 2.0]; data["c"] = 0.0; data["d"] = 0.0; data["e"] = 0.0
+    g = m.refattr(data, "g")
+    if style == "attribute":
+        g.c = 0.1 * g.a + 0.2 * g.b
+        g.d = g.c * 10 - g.lst[1]
+        g.lst[0] = g.a * 2
+        g.e = g.lst[0] + g.b
+    else:
+        g["c"] = 0.1 * g["a"] + 0.2 * g["b"]
+        g["d"] = g["c"] * 10 - g["lst"][1]
+        g["lst"][0] = g["a"] * 2
+        g["e"] = g["lst"][0] + g["b"]
+    return m, data, g
+def items(data):
+    return {k: v for k, v in dict(data).items() if not k.startswith("__")}
+def both(kind, style, which, vals):
+    m1, d1, g1 = build(kind, style)
+    if which == "one":
+        m1.gen_fun("set_a", a=g1.a)(vals[0])
+    else:
+        m1.gen_fun("set_ab", a=g1.a, b=g1["b"])(*vals)
+    m2, d2, g2 = build(kind, style)
+    g2.a = vals[0]
+    if which == "two":
+        g2.b = vals[1]
+    extra = sorted(getattr(d1, "__dict__", {}) if kind not in ("AttrDict",) else [])
+    return items(d1), items(d2), extra
+'''
+    renv = {}
+    exec(RA, renv)
+    for kind in ("AttrDict", "dict", "OrderedDict", "dict subclass", "globals-like"):
+        for style in ("attribute", "item"):
+            for which in ("one", "two"):
+                for vals in ((3.0, 4.0), (-0.5, 0.25)):
+                    key = f"refattr {kind} {style} {which} {vals}"
+                    body = f"d1, d2, extra = both({kind!r}, {style!r}, {which!r}, {vals!r})\nprint(d1); print(d2)\nassert d1 == d2 and not extra, (d1, d2, extra)\n"
+                    rac.case(key, sample=dict(container=kind, style=style, setter=which, values=vals))
+                    try:
+                        d1, d2, extra = renv["both"](kind, style, which, vals)
+                        if d1 != d2 or extra:
+                            rac.fail(key, f"C13 refattr container ({kind}), {style}-style definitions, setter with {which} argument(s) called with {vals}: the setter leaves "
+                                     f"{d1}{' and instance attributes ' + str(extra) if extra else ''}, assignment through the manager {d2}", PRELUDE + RA + body, "Manager.gen_fun")
+                    except Exception as ex:     # noqa
+                        rac.fail(key, f"C13 {key}: {type(ex).__name__}: {ex}", PRELUDE + RA + body, "Manager.gen_fun")
     rac.section("grouping", "definitions whose value depends on how the expression is GROUPED (right-nested sums / products / differences of floats, "
                 "mixed with a power and a unary minus): the generated setter executes the printed text, the manager evaluates the tree -- the "
                 "containers must be equal bit for bit", "10 expression shapes x 3 value sets")
